@@ -72,6 +72,11 @@ func (x *c15) state() string {
 func runC15(r *core.Run) *core.Violation {
 	x := &c15{r: r, bus: pubsub.NewBus(), open: true}
 	n := 10 + r.Choose(40, "knob.ops")
+	// long-backlog runs: bursts of publishes against slow readers (backlogs of 16, 32, 64 ... events)
+	burst := r.Bool(25, "knob.bursts")
+	if burst {
+		n += 20 + r.Choose(40, "knob.ops.more")
+	}
 	defer func() {
 		// leave the bubble clean
 		x.bus.Close()
@@ -85,26 +90,46 @@ func runC15(r *core.Run) *core.Violation {
 		r.Step++
 		r.Ops++
 		live := x.live()
-		w := []int{10, 4, 3, 12, 3, 1}
+		w := []int{10, 4, 3, 12, 3, 1, 0}
+		if burst {
+			w[6], w[4], w[5] = 6, 1, 0
+			if len(live) == 0 {
+				w[1] = 12
+			}
+		}
 		if len(live) == 0 {
 			w[2], w[3], w[4] = 0, 0, 0
 		}
-		switch r.Weighted(w, "op") {
-		case 0: // publish a unique event
-			x.ev++
-			ev := x.ev
-			var err error
-			if !returnsPromptly(func() { err = x.bus.Publish(ev) }) {
-				return r.Flag("C15/publish-blocked", "Publish(%d) did not return; subscribers: %s", ev, x.state())
-			}
-			if err != nil {
-				return r.Flag("C15/publish-failed", "Publish(%d) on an open bus failed: %v", ev, err)
-			}
-			for _, s := range live {
-				s.queue = append(s.queue, ev)
+		op := r.Weighted(w, "op")
+		pubs := 1
+		if op == 6 {
+			op, pubs = 0, 4+r.Choose(30, "burst.n")
+		}
+		switch op {
+		case 0: // publish a unique event (or a burst of them)
+			for k := 0; k < pubs; k++ {
+				x.ev++
+				ev := x.ev
+				var err error
+				if !returnsPromptly(func() { err = x.bus.Publish(ev) }) {
+					return r.Flag("C15/publish-blocked", "Publish(%d) did not return; subscribers: %s", ev, x.state())
+				}
+				if err != nil {
+					return r.Flag("C15/publish-failed", "Publish(%d) on an open bus failed: %v", ev, err)
+				}
+				for _, s := range live {
+					s.queue = append(s.queue, ev)
+					if len(s.queue) == 17 && s.reads > 0 {
+						r.Count("probe:backlog-past-16-after-partial-read")
+					}
+				}
 			}
 			r.Mutating++
-			r.Logf("publish %d", ev)
+			if pubs > 1 {
+				r.Logf("publish %d..%d (burst of %d)", x.ev-pubs+1, x.ev, pubs)
+			} else {
+				r.Logf("publish %d", x.ev)
+			}
 			r.Abstract("publish|" + x.state())
 		case 1: // subscribe
 			var sub pubsub.Subscriber
